@@ -324,6 +324,34 @@ def _manual_levels(A, info, spec):
     return levels
 
 
+def changed_matrix(A, seed):
+    """a different matrix of the same format, block size and pattern: S A S with a random positive diagonal S (keeps symmetry
+    and definiteness, changes every diagonal block)"""
+    rng = np.random.default_rng(seed)
+    n = A.shape[0]
+    S = sp.diags_array(rng.choice([1.0, 1.25, 1.5, 2.0, 0.75], size=n))
+    B = sp.csr_array(S @ sp.csr_array(A) @ S)
+    if A.format == 'bsr':
+        B = B.tobsr(blocksize=A.blocksize)
+        B.indptr = B.indptr.astype(np.int32)
+        B.indices = B.indices.astype(np.int32)
+        return B
+    return gen.int32csr(B)
+
+
+# smoothers whose setup keeps a converted copy of the level matrix on the level (matrix_asformat: lvl.Acsr / lvl.Acsc)
+FORMAT_CACHING = ('gauss_seidel_ne', 'gauss_seidel_nr', 'jacobi_ne', 'schwarz', 'strength_based_schwarz')
+
+
+def requested(spec, side, i):
+    """(name, options) the hierarchy is supposed to use on level i: as requested; after change_solve_matrix the finest
+    level is rebuilt by rebuild_smoother = the same method with its default options, set up for the new matrix"""
+    name, kw = spec_for_level(spec[side], i)
+    if spec.get('changed') is not None and i == 0:
+        return name, {}
+    return name, kw
+
+
 def build(spec):
     """construct the hierarchy described by `spec` (deterministic: np.random is seeded from the spec)"""
     import pyamg
@@ -360,6 +388,9 @@ def build(spec):
         raise KeyError(ctor)
     if spec['via'] == 'change' or ctor in ('manual', 'adaptive'):
         change_smoothers(ml, pre, post)
+    if spec.get('changed') is not None and len(ml.levels) > 1:
+        # history: the solve matrix is replaced after the setup; the hierarchy must then cycle for levels[0].A = Anew
+        ml.change_solve_matrix(changed_matrix(ml.levels[0].A, spec['changed']))
     return ml, info
 
 
@@ -728,7 +759,7 @@ def check_smoothers_requested(ctx, H, spec):
     rng = ctx.np_rng
     for i, l in enumerate(H.ml.levels[:-1]):
         for side in ('pre', 'post'):
-            name, kw = spec_for_level(spec[side], i)
+            name, kw = requested(spec, side, i)
             try:
                 f = expected_smoother(l, name, kw)
             except Exception:
@@ -757,7 +788,8 @@ def check_smoothers_requested(ctx, H, spec):
                     expected_smoother(l, name, kw, variant='fc-iterations-dropped')(l.A, z, b.copy())
                     if _close(got, z, sc, 1e-8):
                         fkey = 'cf-block-jacobi-csr-drops-fc-iterations'
-                ctx.violation(f'level {i} {side}smoother installed on the hierarchy is not the requested '
+                ctx.violation(('after change_solve_matrix(Anew): ' if spec.get('changed') is not None else '') +
+                              f'level {i} {side}smoother installed on the hierarchy is not the requested '
                               f'{name}{kw}: closure gives {got[:4].tolist()}.. the requested relaxation call {y[:4].tolist()}..',
                               _case(spec, kind='requested-smoother', level=i, side=side), fkey=fkey)
                 if fkey is None:
@@ -778,6 +810,8 @@ def check_hier(ctx, spec, H, configs, lean_items, want_lean, want_m, precond=Tru
     def viol(what, **kw):
         nonlocal ok
         ok = False
+        if spec.get('changed') is not None:
+            what = 'after change_solve_matrix(Anew): ' + what
         ctx.violation(what, _case(spec, dims=H.dims, **kw))
 
     singular1 = False
@@ -978,7 +1012,7 @@ def smoother_lean_items(H, spec, items):
             continue
         n = A.shape[0]
         for side in ('pre', 'post'):
-            name, kw = spec_for_level(spec[side], i)
+            name, kw = requested(spec, side, i)
             it, sw = kw.get('iterations', 1), kw.get('sweep', 'forward')
             if name in ('gauss_seidel', 'block_gauss_seidel'):
                 op, om = 'pygs', 1.0
@@ -1069,14 +1103,23 @@ def process_spec(ctx, spec, lean_items, sm_items, lean_dim, m_dim, nconf):
             ctx.feat('skipped:ill-conditioned')
             return False
     for (i, side, msg) in problems:
-        ctx.violation(f'level {i} {side}smoother {spec_for_level(spec[side], i)}: {msg}',
-                      _case(spec, dims=H.dims, kind='smoother-affine', level=i, side=side))
+        nm = requested(spec, side, i)
+        fkey = None
+        if spec.get('changed') is not None and i == 0 and nm[0] in FORMAT_CACHING:
+            fkey = 'change-solve-matrix-stale-format-cache'
+        ctx.violation((f'after change_solve_matrix(Anew): ' if spec.get('changed') is not None else '') +
+                      f'level {i} {side}smoother {nm}: {msg}',
+                      _case(spec, dims=H.dims, kind='smoother-affine', level=i, side=side), fkey=fkey)
     if problems:
         return True
     H.log = _Log()
     check_smoothers_requested(ctx, H, spec)
     instrument(ml, H.log)
     ctx.feat('ctor:' + spec['ctor'])
+    if spec.get('changed') is not None:
+        ctx.feat('history:change_solve_matrix')
+        if ml.levels[0].A.format == 'bsr':
+            ctx.feat('history:change_solve_matrix:bsr')
     ctx.feat('fam:' + spec['fam'])
     ctx.feat('coarse:' + (spec['coarse'] if isinstance(spec['coarse'], str) else spec['coarse'][0] + '-tuple'))
     if H.cplx:
@@ -1354,8 +1397,12 @@ def run(ctx):
     n_big = ctx.scale(6, 250)
     sp_ = special_specs()
     specs = [s for s in sp_ if s['fam'] != 'neumann1d']
-    specs += grid_specs(rng, not ctx.quick)
-    specs += [gen_spec(rng, t) for t in range(n_small)]
+    grid = grid_specs(rng, not ctx.quick)
+    specs += grid
+    specs += [dict(g, changed=7000 + i, t=g['t'] + 100000) for i, g in enumerate(grid)]     # every smoother family after change_solve_matrix
+    rnd = [gen_spec(rng, t) for t in range(n_small)]
+    specs += rnd
+    specs += [dict(g, changed=9000 + i, t=g['t'] + 100000) for i, g in enumerate(rnd) if i % 3 == 0 and g['max_levels'] > 1]
     specs += [gen_spec(rng, 10000 + t, big=True) for t in range(n_big)]
     specs += [s for s in sp_ if s['fam'] == 'neumann1d']      # the singular one-level case (known finding) goes last
     run_specs(ctx, specs, lean_dim=ctx.scale(34, 44), m_dim=ctx.scale(13, 17))
@@ -1363,7 +1410,11 @@ def run(ctx):
 
 def search(ctx):
     rng = ctx.np_rng
-    specs = grid_specs(rng, True) + [gen_spec(rng, 20000 + t) for t in range(150)] + [gen_spec(rng, 30000 + t, big=True) for t in range(20)]
+    grid = grid_specs(rng, True)
+    rnd = [gen_spec(rng, 20000 + t) for t in range(150)]
+    specs = (grid + [dict(g, changed=7000 + i, t=g['t'] + 100000) for i, g in enumerate(grid)] + rnd
+             + [dict(g, changed=9000 + i, t=g['t'] + 100000) for i, g in enumerate(rnd) if i % 2 == 0 and g['max_levels'] > 1]
+             + [gen_spec(rng, 30000 + t, big=True) for t in range(20)])
     run_specs(ctx, specs, lean_dim=0, m_dim=0, nconf=5)
 
 
